@@ -132,3 +132,130 @@ def subst(d, roots, mapping):
         else:
             raise ValueError(op)
     return [out[r] for r in roots]
+
+
+# ---------------------------------------------------------------------------------------------------
+# Dense linear algebra used by GMRFPiecewiseCoalescentBlockUpdatingOperator (small dimensions).
+#   linalg.vector_norm : sqrt(sum x_i^2)                                   (exact; sqrt uninterpreted + axioms)
+#   linalg.solve       : exact rational expressions (substitution for triangular matrices recognised by their
+#                        structural zeros, Cramer's rule for n <= 3 otherwise); every denominator is recorded
+#                        as a well-definedness obligation by the DAG
+#   linalg.cholesky    : functional CONTRACT stub.  U = cholesky(A, upper=True) are fresh symbols named by a
+#                        hash of the symbolic argument (equal arguments -> equal factors) with the contract
+#                        U^T U = A, U_ii > 0 (hypotheses) and the OBLIGATIONS "A symmetric" and "A positive
+#                        definite" (leading principal minors > 0): recorded in trace.contracts.
+# ---------------------------------------------------------------------------------------------------
+from .tensor import (UnsupportedOp, _functional_name, _real_tensor, check_vals, handler, ids_of,  # noqa: E402
+                     val_of, wrap)
+
+I64 = torch.int64
+
+
+def det_ids(d, M):
+    """determinant of a small square matrix of node ids (cofactor expansion along the first row)"""
+    n = len(M)
+    if n == 1:
+        return M[0][0]
+    if n == 2:
+        return d.sub(d.mul(M[0][0], M[1][1]), d.mul(M[0][1], M[1][0]))
+    acc = 0
+    for j in range(n):
+        if M[0][j] == 0:
+            continue
+        minor = [[M[r][c] for c in range(n) if c != j] for r in range(1, n)]
+        term = d.mul(M[0][j], det_ids(d, minor))
+        acc = d.add(acc, term) if j % 2 == 0 else d.sub(acc, term)
+    return acc
+
+
+def _solve_col(d, A, b):
+    n = len(A)
+    lower = all(A[i][j] == 0 for i in range(n) for j in range(i + 1, n))
+    upper = all(A[i][j] == 0 for i in range(n) for j in range(i))
+    x = [0] * n
+    if lower or upper:
+        order = range(n) if lower else range(n - 1, -1, -1)
+        for i in order:
+            acc = b[i]
+            for j in (range(i) if lower else range(i + 1, n)):
+                acc = d.sub(acc, d.mul(A[i][j], x[j]))
+            x[i] = d.div(acc, A[i][i])
+        return x
+    if n > 3:
+        raise UnsupportedOp('linalg.solve with a full matrix of dimension > 3')
+    det = det_ids(d, A)
+    for k in range(n):
+        Ak = [[(b[r] if c == k else A[r][c]) for c in range(n)] for r in range(n)]
+        x[k] = d.div(det_ids(d, Ak), det)
+    return x
+
+
+@handler('linalg_solve')
+def h_solve(func, args, kwargs):
+    A, B = args[0], args[1]
+    if kwargs.get('left', True) is not True or len(args) > 2:
+        raise UnsupportedOp('linalg.solve(left=False)')
+    Ai, Bi = ids_of(A), ids_of(B)
+    Av, Bv = val_of(A), val_of(B)
+    if Ai.dim() != 2 or Bi.dim() not in (1, 2):
+        raise UnsupportedOp('batched linalg.solve')
+    d = cur().dag
+    Al = Ai.tolist()
+    if Bi.dim() == 1:
+        ri = _real_tensor(_solve_col(d, Al, Bi.tolist()), dtype=I64)
+    else:
+        cols = [_solve_col(d, Al, Bi[:, j].tolist()) for j in range(Bi.shape[1])]
+        ri = _real_tensor(cols, dtype=I64).t().contiguous()
+    rv = torch.linalg.solve(Av.to(torch.float64), Bv.to(torch.float64))
+    check_vals(rv, ri, 'linalg.solve')
+    return wrap(rv, ri, 'linalg.solve')
+
+
+@handler('linalg_vector_norm')
+def h_vector_norm(func, args, kwargs):
+    x = args[0]
+    if len(args) > 1 and args[1] not in (2, 2.0) or kwargs.get('ord', 2) not in (2, 2.0) or kwargs.get('dim') is not None:
+        raise UnsupportedOp('linalg.vector_norm: only the 2-norm over all elements')
+    d = cur().dag
+    acc = 0
+    for i in x._ids.reshape(-1).tolist():
+        acc = d.add(acc, d.ipow(i, 2))
+    ri = _real_tensor(d.sqrt(acc), dtype=I64)
+    rv = torch.linalg.vector_norm(x._v)
+    check_vals(rv, ri, 'linalg.vector_norm')
+    return wrap(rv, ri, 'linalg.vector_norm')
+
+
+@handler('linalg_cholesky')
+def h_cholesky(func, args, kwargs):
+    A = args[0]
+    upper = bool(kwargs.get('upper', False))
+    if A._ids.dim() != 2:
+        raise UnsupportedOp('batched linalg.cholesky')
+    t = cur()
+    d = t.dag
+    Fv = torch.linalg.cholesky(A._v, upper=upper)  # raises LinAlgError at a witness that is not positive definite
+    n = A._ids.shape[-1]
+    Ai = A._ids.tolist()
+    base = _functional_name('chol', A._ids.reshape(-1).tolist() + [int(upper)])
+    F = [[0] * n for _ in range(n)]
+    for i in range(n):
+        for j in range(n):
+            if (i <= j) if upper else (i >= j):
+                F[i][j] = d.var(f'{base}[{i},{j}]', float(Fv[i, j]))
+    rows = {}
+    for i in range(n):
+        for j in range(i, n):
+            acc = 0
+            for m in range(n):
+                acc = d.add(acc, d.mul(F[m][i], F[m][j]) if upper else d.mul(F[i][m], F[j][m]))
+            rows[(i, j)] = d.eq(acc, Ai[i][j])
+    pos = [d.lt(0, F[i][i]) for i in range(n)]
+    sym = [d.eq(Ai[i][j], Ai[j][i]) for i in range(n) for j in range(i + 1, n)]
+    minors = [d.lt(0, det_ids(d, [r[:k] for r in Ai[:k]])) for k in range(1, n + 1)]
+    ri = _real_tensor(F, dtype=I64)
+    res = SymTensor(Fv.to(torch.float64), ri)
+    t.contracts.append({'kind': 'cholesky', 'A': A, 'F': res, 'upper': upper, 'rows': rows, 'positive': pos,
+                        'symmetric_obligation': sym, 'posdef_obligation': minors})
+    t.stubs_used.append('linalg.cholesky')
+    return res
